@@ -269,8 +269,11 @@ func fitTime(rng *rand.Rand, st, lt string, t time.Time) time.Time {
 	}
 	switch st {
 	case "long":
-		// representable as int64 nanoseconds, UTC (the long codecs decode to UTC), at the type's resolution
-		if t.Year() < 1700 || t.Year() > 2250 {
+		// plain long: representable as int64 nanoseconds; the timestamp types hold any
+		// instant a time.Time can (the whole range of the stored long is in the
+		// property's domain). UTC (the long codecs decode to UTC), at the type's resolution
+		wide := lt == "timestamp-millis" || lt == "timestamp-micros"
+		if !wide && (t.Year() < 1700 || t.Year() > 2250) {
 			t = time.Unix(rng.Int63n(4e9)-2e9, int64(t.Nanosecond())).UTC()
 		}
 		t = t.UTC()
